@@ -600,6 +600,107 @@ def ep_handshake(prog: Program) -> RuleResult:
     return r
 
 
+_BUILTIN_CONTAINERS = ("dict", "list", "set", "defaultdict", "OrderedDict", "deque", "WeakValueDictionary", "WeakKeyDictionary")
+_MUTATORS = ("append", "add", "remove", "pop", "popitem", "clear", "update", "setdefault", "extend", "insert", "discard")
+_SNAPSHOTS = ("list", "tuple", "sorted", "set", "frozenset", "dict")
+
+
+def _builtin_container_fields(c) -> Set[str]:
+    """fields of a class declared as builtin containers (annotation or default factory / initial value)"""
+    out = set()
+    for name, fi in c.attrs.items():
+        fac = fi.field_kw("default_factory") if fi.field_call is not None else None
+        txt = fi.ann_text
+        if fac is not None and (dotted(fac) or "").split(".")[-1] in _BUILTIN_CONTAINERS:
+            out.add(name)
+        elif fac is not None and isinstance(fac, ast.Lambda) and isinstance(fac.body, (ast.Dict, ast.List, ast.Set)) or (
+                isinstance(fac, ast.Lambda) and isinstance(fac.body, ast.Call) and (dotted(fac.body.func) or "").split(".")[-1] in _BUILTIN_CONTAINERS):
+            out.add(name)
+        elif fi.value is not None and isinstance(fi.value, (ast.Dict, ast.List, ast.Set)):
+            out.add(name)
+        elif txt.split("[")[0].split(".")[-1] in ("Dict", "List", "Set", "DefaultDict", "dict", "list", "set", "defaultdict"):
+            out.add(name)
+    return out
+
+
+def _live_view_of(e: ast.AST, fields: Set[str]) -> Optional[str]:
+    """the container field `e` is a live view of: self.F, self.F[k], self.F.values()/.items()/.keys(), or a lazy wrapper
+    (islice / filter / map / enumerate / reversed / iter / chain) around one - None for a snapshot or anything else"""
+    if isinstance(e, ast.Call):
+        nm = call_name(e)
+        if isinstance(e.func, ast.Name) and nm in _SNAPSHOTS:
+            return None
+        if isinstance(e.func, ast.Name) and nm in ("islice", "filter", "map", "enumerate", "reversed", "iter", "chain", "zip"):
+            for a in e.args:
+                v = _live_view_of(a, fields)
+                if v:
+                    return v
+            return None
+        if isinstance(e.func, ast.Attribute) and e.func.attr in ("values", "items", "keys") and not e.args:
+            return _live_view_of(e.func.value, fields)
+        return None
+    if isinstance(e, ast.Subscript) and not isinstance(e.slice, ast.Slice):
+        return _live_view_of(e.value, fields)
+    if is_self_attr(e) and e.attr in fields:
+        return e.attr
+    return None
+
+
+def live_iter(prog: Program) -> RuleResult:
+    """A generator of an object that outlives the evaluation (the symbol graph, a variable's domain cache) is suspended at every yield,
+    and whatever runs meanwhile - the sweep of another evaluate(), a rule that infers instances, another live iteration - changes the
+    object's containers. A loop that yields from inside an iteration over a *live view* of such a container then skips elements
+    (a removal shifts the list under the iterator), delivers elements of another evaluation (an append is seen) or dies (a dict changes
+    size). Every such loop reads a snapshot."""
+    r = RuleResult("LIVE-ITER", "generators of long-lived objects do not yield from inside an iteration over a live view of a container the object mutates", floor=2)
+    n = 0
+    for c in sorted(prog.classes.values(), key=lambda x: x.qual):
+        if ".entity_query_language." not in c.qual:
+            continue
+        fields = _builtin_container_fields(c)
+        if not fields:
+            continue
+        mutated = set()
+        for g in c.methods.values():
+            if g.name in ("__init__", "__post_init__"):
+                continue
+            for x in walk_local(g.node):
+                tgt = None
+                if isinstance(x, ast.Call) and isinstance(x.func, ast.Attribute) and x.func.attr in _MUTATORS:
+                    tgt = x.func.value
+                elif isinstance(x, (ast.Assign, ast.AugAssign, ast.Delete)):
+                    for t in (x.targets if isinstance(x, (ast.Assign, ast.Delete)) else [x.target]):
+                        if isinstance(t, ast.Subscript):
+                            tgt = t.value
+                while isinstance(tgt, ast.Subscript):
+                    tgt = tgt.value
+                if tgt is not None and is_self_attr(tgt) and tgt.attr in fields:
+                    mutated.add(tgt.attr)
+        for g in sorted(c.methods.values(), key=lambda x: x.qual):
+            if not g.is_generator:
+                continue
+            for x in walk_local(g.node):
+                its = []
+                if isinstance(x, ast.For) and any(_yields_in(b) for b in x.body):
+                    its.append(x.iter)
+                if isinstance(x, ast.YieldFrom):
+                    its.append(x.value)
+                for it in its:
+                    reads = {z.attr for z in ast.walk(it) if is_self_attr(z) and z.attr in fields and z.attr in mutated}
+                    if not reads:
+                        continue
+                    n += 1
+                    v = _live_view_of(it, fields & mutated)
+                    r.check(v is None, f"{c.name}.{g.name}#{'+'.join(sorted(reads))}", site(g, x), src(it)[:100],
+                            "the loop yields from inside an iteration over a snapshot",
+                            f"{g.short} yields from inside an iteration over a live view of {c.name}.{v}, which other methods of {c.name} change: while the generator is "
+                            "suspended another evaluation's sweep removes an entry (the resumed iteration skips a live element), a rule adds one (the resumed iteration "
+                            "delivers what a fresh evaluation would not), or a dict changes size (RuntimeError)")
+    if n < 2:
+        raise AnalysisError(f"LIVE-ITER: {n} generator loops over mutated container fields found (HashedIterable.__iter__ and SymbolGraph.get_instances_of_type are the confirmed instances)")
+    return r
+
+
 def domain_cache(prog: Program) -> RuleResult:
     """A caching iterator over a one-shot source (the variable-domain cache): every element is recorded *before* it is
     handed out - otherwise an iteration that is abandoned right after a value's first delivery (break, early return,
@@ -717,4 +818,4 @@ def _shared_default(prog):
 
 def run(prog: Program, tier: str) -> List[RuleResult]:
     c1 = carry1(prog)
-    return [c1, carry2(prog), ep_handshake(prog), domain_cache(prog), reset_with_evaluation(prog), carry_shared(prog, c1), carry_abandon(prog), carry_memo_up(prog), shared_tree(prog), carry_reset_reach(prog), carry_eval_parent(prog), _shared_default(prog)]
+    return [c1, carry2(prog), ep_handshake(prog), domain_cache(prog), reset_with_evaluation(prog), carry_shared(prog, c1), carry_abandon(prog), carry_memo_up(prog), shared_tree(prog), carry_reset_reach(prog), carry_eval_parent(prog), _shared_default(prog), live_iter(prog)]
